@@ -126,8 +126,9 @@ def role_pruned_edges(body, program, role, conds=None):
 class Held:
     """forward may-analysis of live lock guards of one body"""
 
-    def __init__(self, body, pruned=()):
+    def __init__(self, body, pruned=(), must=False):
         self.body = body
+        self.must = must
         self.pruned = set(pruned)
         self.guards = {}  # local -> (mode, class)
         for l in body.locals:
@@ -167,7 +168,10 @@ class Held:
                     cur.add(st["place"]["local"])
             elif st["s"] == "dead":
                 cur.discard(st["local"])
-        self.at_term[b] = frozenset(cur) | self.at_term.get(b, frozenset())
+        if self.must:
+            self.at_term[b] = frozenset(cur)
+        else:
+            self.at_term[b] = frozenset(cur) | self.at_term.get(b, frozenset())
         t = blk["term"]
         out = set(cur)
         if t["t"] == "drop" and not t["place"]["proj"]:
@@ -193,6 +197,10 @@ class Held:
                 if s not in IN:
                     IN[s] = set(out)
                     work.append(s)
+                elif self.must:
+                    if not IN[s] <= out:
+                        IN[s] &= out
+                        work.append(s)
                 elif not out <= IN[s]:
                     IN[s] |= out
                     work.append(s)
